@@ -235,27 +235,160 @@ Proof.
     exists no, nd; simpl. rewrite !nth_error_move_front; auto.
 Qed.
 
-Lemma seq_set_depot_inv g nm g' : Inv g -> seq_set_depot g nm = Ok g' -> Inv g'.
+(* ---------- re-adding stored arcs (strict set_depot after the depot moved) ---------- *)
+Lemma add_arc_gen_frame s g o d tm c g' b :
+  add_arc_gen s g o d tm c = Ok (g', b) -> names g' = names g /\ nodes g' = nodes g.
 Proof.
-  intros HI. unfold seq_set_depot.
-  destruct (set_depot g nm) as [g1|e] eqn:E; [|discriminate].
-  intros H; inversion H; subst; clear H.
-  pose proof (set_depot_inv _ _ _ HI E) as [H1 H2 H3 H4 H5].
-  (* the depot exists: names g1 is not empty because nm was found *)
-  assert (Hne : exists n0, nth_error (nodes g1) 0 = Some n0).
-  { unfold set_depot in E. destruct (index_of nm (names g)) as [d|] eqn:Ed; [|discriminate].
-    destruct d as [|d]; inversion E as [Eg]; clear E.
-    - rewrite <- Eg. apply index_of_lt in Ed. rewrite (inv_aligned _ HI), map_length in Ed.
-      destruct (nodes g); simpl in *; [lia|eauto].
-    - simpl. eauto. }
-  destruct Hne as [n0 Hn0].
-  assert (En0 : nth 0 (nodes g1) dummy_node = n0) by (eapply nth_error_nth; eauto).
+  unfold add_arc_gen. destruct (index_of o (names g)); [|discriminate].
+  destruct (index_of d (names g)); [|discriminate].
+  match goal with |- context [if ?p then Ok _ else Ok _] => destruct p end;
+    intros H; inversion H; subst; auto.
+Qed.
+
+Lemma add_arc_gen_err s g o d tm c e : add_arc_gen s g o d tm c = Err e -> e = ValueError.
+Proof.
+  unfold add_arc_gen. destruct (index_of o (names g)); [|intros H; inversion H; auto].
+  destruct (index_of d (names g)); [|intros H; inversion H; auto].
+  match goal with |- context [if ?p then Ok _ else Ok _] => destruct p end; discriminate.
+Qed.
+
+(* a property kept by every add_arc is kept by the whole loop *)
+Lemma readd_arcs_ind (P : graph -> Prop) s old :
+  (forall g kv g' b, In kv old -> P g ->
+     add_arc_gen s g (aorig (snd kv)) (adest (snd kv)) (att (snd kv)) (acost (snd kv)) = Ok (g', b) -> P g') ->
+  forall g g', P g -> readd_arcs s g old = Ok g' -> P g'.
+Proof.
+  unfold readd_arcs. induction old as [|kv old IH]; intros Hstep g g' HP H; simpl in H.
+  - inversion H; subst; exact HP.
+  - destruct (add_arc_gen s g (aorig (snd kv)) (adest (snd kv)) (att (snd kv)) (acost (snd kv)))
+      as [[g1 b]|e] eqn:Ea.
+    + apply (IH (fun g kv' g' b Hin => Hstep g kv' g' b (or_intror Hin)) g1 g'); auto.
+      eapply Hstep; eauto. left; reflexivity.
+    + exfalso. clear - H. induction old as [|kv' old IH]; simpl in H; [discriminate|auto].
+Qed.
+
+Lemma readd_arcs_inv s g old g' : Inv g -> readd_arcs s g old = Ok g' -> Inv g'.
+Proof.
+  apply (readd_arcs_ind Inv). intros g0 kv g1 b _ HI H. eapply add_arc_gen_inv; eauto.
+Qed.
+
+Lemma readd_arcs_frame s g old g' :
+  readd_arcs s g old = Ok g' -> names g' = names g /\ nodes g' = nodes g.
+Proof.
+  intros H.
+  apply (readd_arcs_ind (fun x => names x = names g /\ nodes x = nodes g) s old) with (g := g); auto.
+  intros g0 kv g1 b _ [E1 E2] Ha. apply add_arc_gen_frame in Ha. destruct Ha; split; congruence.
+Qed.
+
+Lemma readd_arcs_err s g old e : readd_arcs s g old = Err e -> e = ValueError.
+Proof.
+  unfold readd_arcs.
+  assert (G : forall (r : result graph), (forall e0, r = Err e0 -> e0 = ValueError) ->
+            forall e0, fold_left
+              (fun r kv => match r with
+                 | Err e => Err e
+                 | Ok g' => match add_arc_gen s g' (aorig (snd kv)) (adest (snd kv)) (att (snd kv)) (acost (snd kv)) with
+                            | Ok (g'', _) => Ok g'' | Err e => Err e end end) old r = Err e0 -> e0 = ValueError).
+  { induction old as [|kv old IH]; intros r Hr e0; simpl; [apply Hr|].
+    apply IH. destruct r as [g0|e1]; [|exact Hr].
+    destruct (add_arc_gen s g0 _ _ _ _) as [[g1 b]|e1] eqn:Ea; [discriminate|].
+    intros e2 H; inversion H; subst. eapply add_arc_gen_err; eauto. }
+  apply G. discriminate.
+Qed.
+
+(* the loop cannot raise when every stored arc names two nodes of the graph *)
+Lemma readd_arcs_ok s g old :
+  (forall kv, In kv old -> In (aorig (snd kv)) (names g) /\ In (adest (snd kv)) (names g)) ->
+  exists g', readd_arcs s g old = Ok g'.
+Proof.
+  unfold readd_arcs. revert g. induction old as [|kv old IH]; intros g H; simpl; [eauto|].
+  destruct (H kv (or_introl eq_refl)) as [Ho Hd].
+  destruct (add_arc_gen s g (aorig (snd kv)) (adest (snd kv)) (att (snd kv)) (acost (snd kv)))
+    as [[g1 b]|e] eqn:Ea.
+  - apply IH. intros kv' Hin. apply add_arc_gen_frame in Ea. destruct Ea as [-> _].
+    apply H. right; exact Hin.
+  - exfalso. unfold add_arc_gen in Ea.
+    apply index_of_In in Ho, Hd. destruct Ho as [i Ei], Hd as [j Ej]. rewrite Ei, Ej in Ea.
+    match type of Ea with context [if ?p then Ok _ else Ok _] => destruct p end; discriminate.
+Qed.
+
+Lemma Inv_clear_arcs g : Inv g -> Inv (mkGraph (names g) (nodes g) []).
+Proof. intros [H1 H2 H3 H4 H5]. constructor; simpl; auto; [constructor | tauto]. Qed.
+
+Lemma arc_names_in g k a : Inv g -> In (k, a) (arcs g) -> In (aorig a) (names g) /\ In (adest a) (names g).
+Proof.
+  intros HI Hin. destruct (inv_arcs g HI k a Hin) as (no & nd & A & B & C & D & _).
+  rewrite (inv_aligned g HI), C, D. split; apply in_map; eapply nth_error_In; eauto.
+Qed.
+
+Lemma set_depot_has_depot g nm g' : Inv g -> set_depot g nm = Ok g' -> exists n0, nth_error (nodes g') 0 = Some n0.
+Proof.
+  intros HI E. unfold set_depot in E. destruct (index_of nm (names g)) as [d|] eqn:Ed; [|discriminate].
+  destruct d as [|d]; inversion E as [Eg]; clear E.
+  - rewrite <- Eg. apply index_of_lt in Ed. rewrite (inv_aligned _ HI), map_length in Ed.
+    destruct (nodes g); simpl in *; [lia|eauto].
+  - simpl. eauto.
+Qed.
+
+(* the depot self-arc stored at the end of the sequence class's set_depot *)
+Lemma self_arc_inv g n0 :
+  Inv g -> nth_error (nodes g) 0 = Some n0 ->
+  Inv (mkGraph (names g) (nodes g)
+         (dict_set (O, O) (mkArc (nname (nth 0 (nodes g) dummy_node)) (nname (nth 0 (nodes g) dummy_node)) 0 0) (arcs g))).
+Proof.
+  intros [H1 H2 H3 H4 H5] Hn0.
+  assert (En0 : nth 0 (nodes g) dummy_node = n0) by (eapply nth_error_nth; eauto).
   constructor; simpl; auto.
   - apply dict_set_NoDup; auto.
   - intros k a Hin. apply dict_set_In in Hin. destruct Hin as [Hin|Hin].
     + inversion Hin; subst k a; clear Hin. exists n0, n0; simpl. rewrite En0.
       repeat split; auto. rewrite Z.add_0_r. apply H3. eapply nth_error_In; eauto.
     + destruct (H5 k a Hin) as (no & nd & A & B & C & D & F). exists no, nd; auto.
+Qed.
+
+(* the three stages of seq_set_depot, made explicit *)
+Lemma seq_set_depot_stages s g nm g' :
+  seq_set_depot s g nm = Ok g' ->
+  exists d0 g1 g2,
+    index_of nm (names g) = Some d0 /\ set_depot g nm = Ok g1 /\
+    (if s && negb (Nat.eqb d0 0) then readd_arcs s (mkGraph (names g1) (nodes g1) []) (arcs g1) else Ok g1) = Ok g2 /\
+    g' = mkGraph (names g2) (nodes g2)
+           (dict_set (O, O) (mkArc (nname (nth 0 (nodes g2) dummy_node)) (nname (nth 0 (nodes g2) dummy_node)) 0 0) (arcs g2)).
+Proof.
+  unfold seq_set_depot. destruct (index_of nm (names g)) as [d0|] eqn:Ed; [|discriminate].
+  destruct (set_depot g nm) as [g1|e] eqn:E; [|discriminate].
+  destruct (if s && negb (Nat.eqb d0 0) then _ else _) as [g2|e] eqn:E2; [|discriminate].
+  intros H; inversion H; subst. exists d0, g1, g2. auto.
+Qed.
+
+Lemma seq_set_depot_inv s g nm g' : Inv g -> seq_set_depot s g nm = Ok g' -> Inv g'.
+Proof.
+  intros HI H. destruct (seq_set_depot_stages _ _ _ _ H) as (d0 & g1 & g2 & Ed & E1 & E2 & ->).
+  pose proof (set_depot_inv _ _ _ HI E1) as HI1.
+  destruct (set_depot_has_depot _ _ _ HI E1) as [n0 Hn0].
+  assert (HI2 : Inv g2 /\ nodes g2 = nodes g1).
+  { destruct (s && negb (Nat.eqb d0 0))%bool.
+    - split; [eapply readd_arcs_inv; [apply Inv_clear_arcs; exact HI1 | exact E2]|].
+      apply readd_arcs_frame in E2. tauto.
+    - inversion E2; subst; auto. }
+  destruct HI2 as [HI2 En]. eapply self_arc_inv; eauto. rewrite En. exact Hn0.
+Qed.
+
+(* under the invariant the class-level set_depot raises exactly when the name is unknown *)
+Lemma seq_set_depot_error_iff s g nm :
+  Inv g -> ((exists e, seq_set_depot s g nm = Err e) <-> ~ In nm (names g)).
+Proof.
+  intros HI. unfold seq_set_depot. destruct (index_of nm (names g)) as [d0|] eqn:Ed.
+  - split; [|intros Hn; apply index_of_Some, nth_error_In in Ed; tauto].
+    intros [e H]. exfalso.
+    destruct (set_depot g nm) as [g1|e1] eqn:E1.
+    + pose proof (set_depot_inv _ _ _ HI E1) as HI1.
+      destruct (s && negb (Nat.eqb d0 0))%bool; [|discriminate].
+      destruct (readd_arcs_ok s (mkGraph (names g1) (nodes g1) []) (arcs g1)) as [g2 E2].
+      { intros [k a] Hin. simpl. eapply arc_names_in; eauto. }
+      rewrite E2 in H. discriminate.
+    + unfold set_depot in E1. rewrite Ed in E1. destruct d0; discriminate.
+  - split; [|eauto]. intros _ H. apply index_of_In in H. destruct H; congruence.
 Qed.
 
 Lemma step_inv c g o : Inv g -> Inv (fst (step c g o)).
@@ -266,7 +399,7 @@ Proof.
     eapply add_arc_gen_inv; eauto.
   - destruct c.
     + destruct (set_depot g nm) eqn:E; simpl; auto. eapply set_depot_inv; eauto.
-    + destruct (seq_set_depot g nm) eqn:E; simpl; auto. eapply seq_set_depot_inv; eauto.
+    + destruct (seq_set_depot strict g nm) eqn:E; simpl; auto. eapply seq_set_depot_inv; eauto.
 Qed.
 
 Theorem run_inv c ops g : Inv g -> Inv (run c ops g).
@@ -286,11 +419,14 @@ Proof.
   - f_equal. eapply nth_error_nth; eauto.
 Qed.
 
-Lemma seq_set_depot_first g nm g' :
-  seq_set_depot g nm = Ok g' -> hd_error (names g') = Some nm.
+Lemma seq_set_depot_first s g nm g' :
+  seq_set_depot s g nm = Ok g' -> hd_error (names g') = Some nm.
 Proof.
-  unfold seq_set_depot. destruct (set_depot g nm) eqn:E; [|discriminate].
-  intros H; inversion H; subst; simpl. eapply set_depot_first; eauto.
+  intros H. destruct (seq_set_depot_stages _ _ _ _ H) as (d0 & g1 & g2 & Ed & E1 & E2 & ->). simpl.
+  assert (En : names g2 = names g1).
+  { destruct (s && negb (Nat.eqb d0 0))%bool; [|inversion E2; auto].
+    apply readd_arcs_frame in E2. tauto. }
+  rewrite En. eapply set_depot_first; eauto.
 Qed.
 
 (* node and arc additions never displace the first node *)
@@ -351,9 +487,17 @@ Proof.
     destruct (index_of o (names g)); simpl; [|intros H; inversion H; auto].
     destruct (index_of d (names g)); simpl; [|intros H; inversion H; auto].
     match goal with |- context [if ?c then Ok _ else Ok _] => destruct c end; simpl; discriminate.
-  - destruct c; unfold seq_set_depot, set_depot;
-      destruct (index_of nm (names g)) as [[|d]|]; simpl; try discriminate;
-      intros H; inversion H; auto.
+  - destruct c as [|s].
+    + unfold set_depot; destruct (index_of nm (names g)) as [[|d]|]; simpl; try discriminate;
+        intros H; inversion H; auto.
+    + destruct (seq_set_depot s g nm) as [g'|e'] eqn:E; simpl; [discriminate|].
+      intros H; inversion H; subst e'; clear H. split; [reflexivity|].
+      unfold seq_set_depot in E. destruct (index_of nm (names g)) as [d0|] eqn:Ed; [|inversion E; auto].
+      destruct (set_depot g nm) as [g1|e1] eqn:E1.
+      * destruct (s && negb (Nat.eqb d0 0))%bool; [|discriminate].
+        destruct (readd_arcs s _ (arcs g1)) as [g2|e2] eqn:E2; [discriminate|].
+        inversion E; subst. eapply readd_arcs_err; eauto.
+      * unfold set_depot in E1. rewrite Ed in E1. destruct d0; discriminate.
 Qed.
 
 Lemma add_node_error_iff g nm dem lo hi :
